@@ -182,6 +182,10 @@ def check_grammar(rep, wf, cls):
                 rep.check(want_t in origin and other_t not in origin, 'C08.R6', w, '%s preference lists are tied with probability %s' % (name, want_t), got=sorted(origin), want=want_t,
                           construct='%s %s tie source %s' % (cls, name, sorted(o for o in origin if o.startswith('ties'))))
                 rep.check(k == len(roles), 'C08.R2', w, 'the preference list is the last field of a %s line' % name, got='field %d of %d' % (k, len(roles)), construct='%s %s list position' % (cls, name))
+                from ..writerfacts import list_alt_problems
+                for prob in list_alt_problems(fld):
+                    rep.fail('C08.R2', w, '%s line: the preference tokens are written exactly when the side has preference lists' % name, got=prob, want='tokens iff the lists exist',
+                             construct='%s %s list written under the inverted condition' % (cls, name))
                 joined = any((isinstance(x, doc.Rep) and x.sep == ' ') or (isinstance(x, doc.Hole) and x.sep == ' ') or (isinstance(x, doc.Alt)) for x in fld)
                 rep.check(joined, 'C08.R2', w, 'preference tokens are separated by single spaces', got=[type(x).__name__ for x in fld], construct='%s %s token separator' % (cls, name))
                 continue
